@@ -98,6 +98,9 @@ var (
 
 func internRoot(items []any, r [32]byte) (id []any, ok bool) {
 	c := core.Canon(items)
+	if curAlphabet == &nestedAlphabet { // the ids name other real keys: a table of its own
+		c = "nested:" + c
+	}
 	ok = true
 	if known, seen := rootByContents[c]; !seen {
 		rootByContents[c] = r
@@ -108,7 +111,7 @@ func internRoot(items []any, r [32]byte) (id []any, ok bool) {
 	if !seen {
 		contentsByRoot[r] = items
 		id = items
-	} else if core.Canon(id) != c {
+	} else if core.Canon(id) != core.Canon(items) {
 		ok = false // same root, other contents
 	}
 	return id, ok
@@ -146,15 +149,25 @@ func (s *authSUT) Reset(cfg core.Ev) {
 	if s.nk < 1 || s.nk > len(keyAlphabet) {
 		panic("nk outside the key alphabet")
 	}
+	curAlphabet = &keyAlphabet
+	if ka, _ := cfg["ka"].(string); ka == "nested" {
+		curAlphabet = &nestedAlphabet
+	}
 	s.store = mapdb.NewMapDB()
 	s.m = s.open()
 	s.shadow, s.committed, s.ever = map[int]string{}, map[int]string{}, false
 }
 
-func key(id int) keyT { return keyT(keyAlphabet[id-1]) }
+// nestedAlphabet: raw keys that are byte prefixes of one another, the empty key included (cfg ka = "nested").
+var nestedAlphabet = [4][]byte{[]byte("a"), []byte("ab"), {}, []byte("abc")}
+
+// curAlphabet is the alphabet of the current instance (set by Reset; the walker is single-threaded).
+var curAlphabet = &keyAlphabet
+
+func key(id int) keyT { return keyT(curAlphabet[id-1]) }
 
 func keyID(k keyT) int {
-	for i, b := range keyAlphabet {
+	for i, b := range curAlphabet {
 		if string(b) == string(k) {
 			return i + 1
 		}
@@ -342,7 +355,7 @@ func (s *authSUT) Apply(e core.Ev) (any, any) {
 var traceVals = []string{"", "a", "b"}
 
 func (s *authSUT) RandomCfg(r *rand.Rand) core.Ev {
-	cfg := core.Ev{"flavour": "map", "nk": 4, "obs": core.Pick(r, "full", "lazy")}
+	cfg := core.Ev{"flavour": "map", "nk": 4, "obs": core.Pick(r, "full", "lazy"), "ka": core.Pick(r, "trie", "nested")}
 	if r.Intn(3) == 0 {
 		cfg["flavour"] = "set"
 	}
